@@ -1,0 +1,14 @@
+//go:build verif
+
+package antispoof
+
+import "github.com/cilium/ebpf"
+
+// VerifSetMaps hands the manager already-created maps instead of loading and
+// attaching the object in Start (verification harness only).
+func (m *Manager) VerifSetMaps(bindings, config, stats, ranges *ebpf.Map) {
+	m.bindings = bindings
+	m.config = config
+	m.stats = stats
+	m.ranges = ranges
+}
